@@ -133,10 +133,11 @@ Definition static_ok_arguments_values (E : env) (dt : bytes -> option bytes)
                 | None => true
                 end) defs.
 
-Theorem arguments_values_from_c04 E dt argdefs defs args p :
+Theorem arguments_values_from_c04_gen E dt argdefs defs args (A' : list Ast.argument) p :
+  map Ast.a_name A' = map fst args ->
   bridgeable E = true -> (no_float E = true \/ float_leaves_agree dt) ->
   (* validateArguments on the node is silent *)
-  fst (ValidatorModel.args_node ValidatorModel.repaired ValidatorModel.id_order [] (tr_args 0 args) (tr_argdefs argdefs) p) = [] ->
+  fst (ValidatorModel.args_node ValidatorModel.repaired ValidatorModel.id_order [] A' (tr_argdefs argdefs) p) = [] ->
   (* validateValues: validateCoercion is silent on every argument value at its declared type ... *)
   (forall a d, In a args -> aget (fst a) argdefs = Some d -> c04_accepts E (snd a) (in_type d) true = true) ->
   (* ... and on every variable default at the variable's (known) type *)
@@ -144,7 +145,7 @@ Theorem arguments_values_from_c04 E dt argdefs defs args p :
                     type_known E (vd_type def) = true /\ c04_accepts E dflt (vd_type def) true = true) ->
   static_ok_arguments_values E dt argdefs defs args = true.
 Proof.
-  intros HB HF Hn Hv Hd. unfold static_ok_arguments_values.
+  intros Hnm HB HF Hn Hv Hd. unfold static_ok_arguments_values.
   assert (Br : forall l t, c04_accepts E l t true = validate_coercion E dt l t true) by (intros; apply bridge_bridgeable; auto).
   (* the node *)
   assert (N : (forall a, In a args -> ahas (fst a) argdefs = true) /\ has_dup (map fst args) = false /\
@@ -152,13 +153,13 @@ Proof.
                  is_nonnull (in_type (snd ad)) && match in_default (snd ad) with None => true | Some _ => false end = true ->
                  ahas (fst ad) args = true)).
   { apply args_node_silent in Hn as [He Hr].
-    destruct (ValidatorModel.args_given (tr_argdefs argdefs) (tr_args 0 args) []) as [e1 by1] eqn:G.
+    destruct (ValidatorModel.args_given (tr_argdefs argdefs) A' []) as [e1 by1] eqn:G.
     cbn [fst snd] in He, Hr. subst e1.
       destruct (args_given_silent _ _ _ _ G) as (K & D & M). cbn [map app] in D, M.
-      rewrite a_names_tr in D, M. rewrite dups_nil in D.
+      rewrite Hnm in D, M. rewrite dups_nil in D.
       repeat split; auto.
       + intros [n l] Hin.
-        assert (Hx : In n (map Ast.a_name (tr_args 0 args))) by (rewrite a_names_tr; apply (in_map fst _ _ Hin)).
+        assert (Hx : In n (map Ast.a_name A')) by (rewrite Hnm; apply (in_map fst _ _ Hin)).
         apply in_map_iff in Hx as (a & <- & Ha). specialize (K a Ha). rewrite assoc_tr_argdefs in K.
         simpl. unfold ahas. destruct (aget (Ast.a_name a) argdefs); [reflexivity|contradiction].
       + intros [k d] Hin Rq. simpl in Rq |- *.
@@ -177,15 +178,25 @@ Proof.
   destruct N as (N1 & N2 & N3).
   repeat (apply andb_true_iff; split).
   - apply forallb_forall. auto.
-  - rewrite N2. reflexivity.
+  - apply negb_true_iff. exact N2.
   - apply forallb_forall. intros ad Hin.
     destruct (is_nonnull (in_type (snd ad)) && match in_default (snd ad) with None => true | Some _ => false end) eqn:Rq; [|reflexivity].
     rewrite (N3 ad Hin Rq). apply orb_true_r.
-  - apply forallb_forall. intros a Hin. pose proof (N1 a Hin) as Ha. unfold ahas in Ha.
+  - apply forallb_forall. intros a Hin. pose proof (N1 a Hin) as Ha.
+    change (ahas (fst a) argdefs = true) in Ha. unfold ahas in Ha.
     destruct (aget (fst a) argdefs) as [d|] eqn:G; [|discriminate]. rewrite <- Br. eapply Hv; eauto.
   - apply forallb_forall. intros def Hin. destruct (vd_default def) as [dflt|] eqn:D; [|reflexivity].
     destruct (Hd def dflt Hin D) as [Tk C]. rewrite Tk, <- Br, C. reflexivity.
 Qed.
+
+Theorem arguments_values_from_c04 E dt argdefs defs args p :
+  bridgeable E = true -> (no_float E = true \/ float_leaves_agree dt) ->
+  fst (ValidatorModel.args_node ValidatorModel.repaired ValidatorModel.id_order [] (tr_args 0 args) (tr_argdefs argdefs) p) = [] ->
+  (forall a d, In a args -> aget (fst a) argdefs = Some d -> c04_accepts E (snd a) (in_type d) true = true) ->
+  (forall def dflt, In def defs -> vd_default def = Some dflt ->
+                    type_known E (vd_type def) = true /\ c04_accepts E dflt (vd_type def) true = true) ->
+  static_ok_arguments_values E dt argdefs defs args = true.
+Proof. apply arguments_values_from_c04_gen. apply a_names_tr. Qed.
 
 (** [static_ok] is these five conjuncts and the four of validateVariables *)
 Lemma static_ok_split fx E dt site argdefs defs args :
